@@ -149,6 +149,8 @@ def unit_sum_species(twin=False):
                 add = add - (tm.num(2) if field == "total_h_x" else tm.num(1)) * msw / gw
             U.discharge_eq_real(r, "species.%s+=%s*moles" % (field, coef), hy, w[-1][1], old + add)
         w = writes(s, ("f", "total_ions_x", "R"))
+    for field, coef in sums:
+        check_accumulator_init(r, fn, MODEL, loop_node(fn, k), field, "species")
     r.add("reach.species_cases", DISCHARGED if nrun and nskip else UNDECIDED, "symex", 0, "%d aqueous, %d sorbed paths" % (nrun, nskip), kind="vacuity")
     # valence-state totals: master->total += moles*coef, master = secondary if present else primary
     k = loop_ordinal(fn, MODEL, init_text="i=0", cond_text="i<(int)species_list.size()")
